@@ -250,6 +250,13 @@ class FiniteDifference(ApproximationScheme):
             # Turn off finite difference.
             system._set_finite_difference_mode(False)
 
+            # If a perturbed evaluation raised, _run_sub_point never got to put the vectors
+            # back, so do it here.
+            if self._starting_ins is not None:
+                system._residuals.set_val(self._starting_resids)
+                system._inputs.set_val(self._starting_ins)
+                system._outputs.set_val(self._starting_outs)
+
         # reclaim some memory
         self._starting_ins = None
         self._starting_outs = None
